@@ -12,6 +12,7 @@ import (
 	_ "verifsim/engines/faultsim"
 	_ "verifsim/engines/mapsim"
 	_ "verifsim/engines/plugsim"
+	_ "verifsim/engines/regsim"
 )
 
 func verifDir() string {
